@@ -26,7 +26,7 @@ def run(ctx):
     inputs = {}
     for (name, data) in corpus:
         routes = ["v"] if q else ["v", "d"]
-        for i, mut in enumerate([data] + fuzz.mutate(rng, data, per) + (fuzz.dup_chunks(data)[:: (3 if q else 1)] if len(data) < 20000 else [])):
+        for i, mut in enumerate([data] + fuzz.mutate(rng, data, per) + (fuzz.dup_chunks(data) if len(data) < 20000 else [])):
             for r in routes:
                 nm = "%s#%d%s" % (name, i, r)
                 inputs[nm] = mut
